@@ -468,12 +468,9 @@ func c11QuotePair(p *core.Program, r *core.Report, rule string) {
 	r.Check(ok, rule, "TextLiteral.String/strconv.Quote(native)", p.Pos(tls.Pos()), "prints strconv.Quote of the literal's full native value", "a text literal is not printed as strconv.Quote of its full value ("+why+"): printing and re-parsing an expression changes the literal")
 	okU := false
 	for _, ret := range core.Returns(vtl) {
-		for v := range core.BackSlice(ret.Results[0], func(c *ssa.Call) bool { return true }) {
-			if c, ok := v.(*ssa.Call); ok {
-				if o := core.CalleeObj(&c.Call); o != nil && core.ObjName(o) == "strconv.Unquote" {
-					okU = true
-				}
-			}
+		// the literal's value: the returned node is built from it (follow the stores into the allocated node)
+		if core.DerivesFromCallDeep(ret.Results[0], 2, "strconv.Unquote") {
+			okU = true
 		}
 	}
 	r.Check(okU, rule, "visitor.VisitTextLiteral/strconv.Unquote", p.Pos(vtl.Pos()), "text literals are read with strconv.Unquote", "VisitTextLiteral does not unquote with strconv.Unquote")
